@@ -11,18 +11,22 @@ import (
 // Engine adapts poolsim to the generic worker.
 type Engine struct{}
 
+//go:norace
 func (Engine) Name() string { return "poolsim" }
 
+//go:norace
 func (Engine) Generate(r *rand.Rand, profile string, concurrent bool, avoid map[string]bool) simkit.Plan {
 	return Generate(r, profile, concurrent, Avoid{EmptyKeyList: avoid["empty_key_list"]})
 }
 
+//go:norace
 func (Engine) Decode(b []byte) (simkit.Plan, error) {
 	p := &Plan{}
 	err := json.Unmarshal(b, p)
 	return p, err
 }
 
+//go:norace
 func (Engine) Strategy(p simkit.Plan, r *rand.Rand) simkit.Strategy {
 	pl := p.(*Plan)
 	if !pl.Concurrent || pl.Strategy == 0 {
@@ -30,23 +34,27 @@ func (Engine) Strategy(p simkit.Plan, r *rand.Rand) simkit.Strategy {
 		if pl.Concurrent {
 			stick = []float64{0.5, 0.8, 0.95}[r.IntN(3)]
 		}
-		return &simkit.RandomWalk{R: r, Stick: stick, Mix: 0.5}
+		return &simkit.RandomWalk{R: simkit.NewSM64(r.Uint64()), Stick: stick, Mix: 0.5}
 	}
-	return simkit.NewPCT(r, pl.Strategy, 60+len(pl.Ops)*12, 0.5)
+	return simkit.NewPCT(simkit.NewSM64(r.Uint64()), pl.Strategy, 60+len(pl.Ops)*12, 0.5)
 }
 
+//go:norace
 func (Engine) Run(t *testing.T, p simkit.Plan, src *simkit.Source, log bool) *simkit.Result {
 	return Run(t, p.(*Plan), src, Options{Log: log, Heal: true})
 }
 
+//go:norace
 func (Engine) NOps(p simkit.Plan) int { return len(p.(*Plan).Ops) }
 
+//go:norace
 func (Engine) Remove(p simkit.Plan, i, j int) simkit.Plan {
 	c := p.(*Plan).Clone()
 	c.Ops = append(c.Ops[:i], c.Ops[j:]...)
 	return c
 }
 
+//go:norace
 func (Engine) Simplify(p simkit.Plan) []simkit.Plan {
 	var out []simkit.Plan
 	for _, x := range Simplify(p.(*Plan)) {
@@ -70,6 +78,7 @@ var relevant = map[string][]string{
 	"C20": {"ev:UpdateAddresses", "fault:resolver_error"},
 }
 
+//go:norace
 func (Engine) Relevant(res *simkit.Result, prop string) bool {
 	for _, k := range relevant[prop] {
 		if res.Counters[k] > 0 {
